@@ -47,10 +47,13 @@ def finish(prop, tier, seed, tasks, results, t0, meta, extra_results=None):
     agg = dict(paths=0, aborted=0, fork_queries=0, final_queries=0, unsat=0, sat=0, unknown=0, solver_s=0.0,
                validations=0, reach_sat=0, obligations=0)
     errors, violations, findings, mismatches, samples, ops = [], [], [], [], [], {}
+    cross = dict(asked=0, unsat=0, unknown=0, disagree=0)
     per_task = []
     for t, r in zip(tasks, results):
         for k in agg:
             agg[k] += r.get(k, 0)
+        for k in cross:
+            cross[k] += r.get("cross", {}).get(k, 0)
         for e in r.get("errors", []):
             errors.append(f"{r['harness']} {json.dumps(r['cfg'], sort_keys=True)}: {e}")
         for m in r.get("validation_mismatch", []):
@@ -114,6 +117,7 @@ def finish(prop, tier, seed, tasks, results, t0, meta, extra_results=None):
             verdicts=dict(unsat=agg["unsat"], sat=agg["sat"], unknown=agg["unknown"]),
             reachability_twins_sat=agg["reach_sat"], violation_disjuncts=agg["obligations"],
             solver_time_s=round(agg["solver_s"], 2),
+            second_solver=dict(solver="cvc5 1.4 (python API) on the SMT-LIB2 text of z3's unsat property queries", **cross),
             engine_validation_runs=agg["validations"], engine_validation_mismatches=len(mismatches),
             evaluations=max(nq, 1), distinct_nontrivial=max(agg["paths"] + len(extra_results), 0),
             rule="one evaluation = one solver query; distinct_nontrivial = number of distinct feasible symbolic paths (each covers every input of its bound) plus auxiliary lemmas",
